@@ -184,6 +184,21 @@ def standin_sweeps_roundtrip(tier, seed):
     sweeps = [cirq.UnitSweep, cirq.Points("a", [1, 2.5, -3]), cirq.Linspace("a", 0, 1, 5), cirq.Linspace("b", 1, 1, 1), cirq.Zip(cirq.Points("a", [1, 2]), cirq.Linspace("b", 0, 1, 2)),
               cirq.Product(cirq.Points("a", [1.0, 2.0]), cirq.Zip(cirq.Points("b", [1, 2]), cirq.Points("c", [3, 4]))), cirq.Points("a", [0.1 + 0.2]), cirq.Points("a", []),
               cirq.Concat(cirq.Points("a", [1, 2]), cirq.Points("a", [3])), cirq.ZipLongest(cirq.Points("a", [1, 2, 3]), cirq.Points("b", [4]))]
+    try:
+        import tunits
+
+        ns, us, GHz, MHz = tunits.ns, tunits.us, tunits.GHz, tunits.MHz
+        sweeps += [cirq.Linspace("t", 1 * ns, 10 * ns, 4), cirq.Linspace("t", 1 * ns, 10 * us, 4), cirq.Linspace("t", 2 * us, 500 * ns, 3), cirq.Linspace("f", 4.5 * GHz, 4700 * MHz, 5),
+                   cirq.Points("t", [1 * ns, 2 * us, 0.5 * us]), cirq.Points("f", [5 * GHz]), cirq.Zip(cirq.Linspace("t", 1 * ns, 1 * us, 3), cirq.Points("a", [1, 2, 3])),
+                   cirq.Product(cirq.Linspace("f", 1 * MHz, 1 * GHz, 2), cirq.Points("t", [3 * ns, 4 * us]))]
+    except ImportError:
+        tunits = None
+
+    def num(v):
+        if tunits is not None and isinstance(v, tunits.Value):
+            return float(v.value_in_base_units())
+        return float(v)
+
     for s in sweeps:
         try:
             msg = v2.sweep_to_proto(s)
@@ -194,11 +209,11 @@ def standin_sweeps_roundtrip(tier, seed):
             fails.append(dict(args=dict(sweep=repr(s)), failed="sweep-raised", clause=f"sweep_to_proto/sweep_from_proto raised {ex!r} (neither a round trip nor a clean rejection)"))
             continue
         cases += 1
-        a = [{str(k): float(v) for k, v in r.param_dict.items()} for r in s]
-        b = [{str(k): float(v) for k, v in r.param_dict.items()} for r in back]
+        a = [{str(k): num(v) for k, v in r.param_dict.items()} for r in s]
+        b = [{str(k): num(v) for k, v in r.param_dict.items()} for r in back]
         if len(a) != len(b) or any(set(x) != set(y) or any(abs(x[k] - y[k]) > 1e-6 * max(1, abs(x[k])) for k in x) for x, y in zip(a, b)):
             fails.append(dict(args=dict(sweep=repr(s), back=repr(back)), failed="sweep-roundtrip", clause="sweep_from_proto(sweep_to_proto(s)) enumerates different assignments"))
-    return dict(function="cirq-google/cirq_google/api/v2/sweeps.py", case="sweep-roundtrip", bound="10 sweep shapes incl. empty, single-point linspace, nested product/zip, concat, zip-longest",
+    return dict(function="cirq-google/cirq_google/api/v2/sweeps.py", case="sweep-roundtrip", bound="18 sweep shapes incl. empty, single-point linspace, nested product/zip, concat, zip-longest, values with (mixed) physical units",
                 cases=cases, distinct=cases, failures=len(fails), exhaustive=False, _fails=fails[:3])
 standin_sweeps_roundtrip.prop = "C16"
 STANDINS = [standin_bits_native, standin_circuit_roundtrip, standin_results_roundtrip, standin_sweeps_roundtrip]
